@@ -31,7 +31,13 @@ Env == <<
                ty |-> OO(<<Prop("k", TString, FALSE), Prop("n", TNumber, FALSE)>>)],
   [n |-> "K",  kind |-> "type", ty |-> Uni(<<LS("a"), LS("b")>>)],
   [n |-> "KU", kind |-> "type", ty |-> Uni(<<LS("a"), LS("zz")>>)],
-  [n |-> "G",  kind |-> "type", params |-> <<"X">>, ty |-> OO(<<Prop("x", Param("X"), FALSE), Prop("y", Arr(Param("X")), TRUE)>>)]
+  [n |-> "G",  kind |-> "type", params |-> <<"X">>, ty |-> OO(<<Prop("x", Param("X"), FALSE), Prop("y", Arr(Param("X")), TRUE)>>)],
+  \* lexical scoping of type parameters: the global alias X (number) is what InX mentions, whatever W is applied to
+  [n |-> "X",   kind |-> "type", ty |-> TNumber],
+  [n |-> "InX", kind |-> "type", ty |-> OO(<<Prop("x", Ref("X"), FALSE)>>)],
+  [n |-> "W",   kind |-> "type", params |-> <<"X">>, ty |-> OO(<<Prop("i", Ref("InX"), FALSE), Prop("v", Param("X"), FALSE)>>)],
+  \* a declared name that looks like the name generated for an instantiation (G<string>)
+  [n |-> "G_string", kind |-> "type", ty |-> OO(<<Prop("v", TNumber, FALSE)>>)]
 >>
 RO == Ref("O")
 RP == Ref("P")
@@ -57,7 +63,10 @@ ULeaves == <<
   Ref("I2"), App("G", <<TString>>), App("G", <<RO>>), App("G", <<RK>>), App("G", <<App("G", <<TNumber>>)>>),
   Util("Partial", <<App("G", <<TNumber>>)>>), Util("Required", <<Util("Partial", <<RO>>)>>), Util("Partial", <<Ref("R1")>>),
   Util("Pick", <<Ref("R1"), LS("next")>>), Util("Partial", <<Ref("I2")>>), Util("Required", <<Ref("I2")>>),
-  Util("Omit", <<Inter(<<RO, RP>>), LS("a")>>), Util("Partial", <<Uni(<<RO, RP>>)>>)
+  Util("Omit", <<Inter(<<RO, RP>>), LS("a")>>), Util("Partial", <<Uni(<<RO, RP>>)>>),
+  App("W", <<TString>>), OO(<<Prop("w", App("W", <<TString>>), FALSE), Prop("i", Ref("InX"), FALSE)>>),
+  OO(<<Prop("i", Ref("InX"), FALSE), Prop("w", App("W", <<TBoolean>>), FALSE)>>),
+  OO(<<Prop("g", App("G", <<TString>>), FALSE), Prop("u", Ref("G_string"), FALSE)>>)
 >>
 
 VARIABLES ty, depth, last
